@@ -139,6 +139,9 @@ BOXES = {
     # every parameter has ONE infinite side, written as an explicit inf (not None): still bounded on the other side
     "halfinf": lambda d: ([0.25] * d, [float("inf")] * d),
     # integer corners away from zero (a positive lower / a negative upper bound) and their fractional sub-boxes
+    # fractional corners that integer rounding still maps into the box (round(-2.4) = -2, round(3.4) = 3): clipping to
+    # the box and rounding do not commute there, so the bounds-coupled constraint has to iterate to a common fixed point
+    "fracround": lambda d: ([-2.4] * d, [3.4] * d),
     "shifted": lambda d: ([1.0] * d, [4.0] * d),
     "negshift": lambda d: ([-4.0] * d, [-1.0] * d),
     "mixedinf": lambda d: ([(0.25 if k % 2 == 0 else -float("inf")) for k in range(d)],
